@@ -82,6 +82,8 @@ static void render(const MVal& v, sim::Rng& r, std::string& out, int style, int 
         if (style == 0) return;
         unsigned n = (unsigned)r.below(style == 1 ? 2 : 4);
         for (unsigned i = 0; i < n; ++i) { unsigned c = (unsigned)r.below(6); out += c == 0 ? " " : c == 1 ? "\n" : c == 2 ? "\r\n" : c == 3 ? "\t" : c == 4 ? "\r" : "  "; }
+        // comments (valid only under allow_comments; otherwise the same bytes are an invalid input, which is just as good a test)
+        if (style == 3 && r.chance(1, 6)) { unsigned c = (unsigned)r.below(4); out += c == 0 ? "/*c*/" : c == 1 ? "//x\n" : c == 2 ? "/* a\r\n * b */" : "//\r\n"; }
     };
     auto str = [&](const std::string& s) {
         out.push_back('"');
